@@ -289,3 +289,63 @@ def gen_ring_chars():
     o.write(']\n\n')
     o.write('end PGA.Gen.RingChars\n')
     return o.getvalue()
+
+
+def accepted_symbols():
+    """symbols `Chem.Atom(str)` accepts (exact match, anything else raises RuntimeError): probed, not assumed,
+    over every string of one or two ASCII alphanumerics/underscore, every Xxx, and every periodic-table symbol"""
+    import itertools, string
+    from rdkit import Chem, RDLogger
+    RDLogger.DisableLog('rdApp.*')
+    cand = []
+    al = string.ascii_letters + string.digits + '_'
+    cand += list(al)
+    cand += [a + b for a in al for b in al]
+    cand += [a + b + c for a in string.ascii_uppercase for b in string.ascii_lowercase for c in string.ascii_lowercase]
+    pt = Chem.GetPeriodicTable()
+    for z in range(1, 300):
+        try:
+            cand.append(pt.GetElementSymbol(z))
+        except Exception:
+            break
+    ok = {}
+    for s in cand:
+        if s in ok:
+            continue
+        try:
+            ok[s] = Chem.Atom(s).GetAtomicNum()
+        except RuntimeError:
+            pass
+    return ok
+
+
+@gen('RingElements')
+def gen_ring_elements():
+    """RDKit's element-symbol table as accepted by `Chem.Atom(str)`, and the lower-case (aromatic) spellings
+    `t` for which `Chem.Atom(t[0].upper() + t[1:])` succeeds (CPython `str.upper` folded in)."""
+    ok = accepted_symbols()
+    o = io.StringIO()
+    o.write(HEADER)
+    o.write('namespace PGA.Gen.RingElements\n\n')
+    o.write('/-- (symbol, atomic number) for every string `Chem.Atom` accepts -/\n')
+    o.write('def elementSymbols : List (List Char × Nat) := [\n  ')
+    o.write(',\n  '.join('(%s, %d)' % (lean_chars(s), z) for s, z in sorted(ok.items(), key=lambda kv: (kv[1], kv[0]))))
+    o.write(']\n\n')
+    inv = {}
+    for cp in range(0x110000):
+        if 0xD800 <= cp <= 0xDFFF:
+            continue
+        c = chr(cp)
+        if c.islower():
+            inv.setdefault(c.upper(), []).append(c)
+    arom = {}
+    for s, z in ok.items():
+        for k in range(1, len(s) + 1):
+            for c in inv.get(s[:k], []):
+                arom[c + s[k:]] = z
+    o.write('/-- spellings whose first character `islower()` and whose capitalised form is an element symbol -/\n')
+    o.write('def aromaticSymbols : List (List Char × Nat) := [\n  ')
+    o.write(',\n  '.join('(%s, %d)' % (lean_chars(s), z) for s, z in sorted(arom.items(), key=lambda kv: (kv[1], kv[0]))))
+    o.write(']\n\n')
+    o.write('end PGA.Gen.RingElements\n')
+    return o.getvalue()
